@@ -1,12 +1,10 @@
 import PyAirtouch.Lemmas.Crc
+import PyAirtouch.Lemmas.CrcDetect
 /-!
 # C06 — the checksum is CRC-16/MODBUS (property theorems only; helper lemmas live in `Lemmas/`)
 -/
 namespace PyAirtouch.Props.C06
-open PyAirtouch.Gen PyAirtouch.Model PyAirtouch.Spec PyAirtouch.Lemmas.Crc
-
-/-- byte strings: every element is a byte -/
-def Bytes (bs : List Nat) : Prop := ∀ b ∈ bs, b < 256
+open PyAirtouch.Gen PyAirtouch.Model PyAirtouch.Spec PyAirtouch.Lemmas.Crc PyAirtouch.Lemmas.CrcDetect
 
 /-- Each of the 256 words of the table in the source (regenerated on every run) is eight shifts of
     the reflected polynomial 0xA001 applied to its index. -/
@@ -60,5 +58,93 @@ example : Bytes [0x80, 0xb0, 0x01, 0x2b, 0x00, 0x00] ∧
     crcValidate [0x80, 0xb0, 0x01, 0x2b, 0x00, 0x00] [0xf5, 0x2f] = .result true ∧
     crcValidate [0x80, 0xb0, 0x01, 0x2b, 0x00, 0x00] [0xf5, 0x2e] = .result false := by
   refine ⟨by intro b hb; simp at hb; omega, by decide +kernel, by decide +kernel⟩
+
+
+/-! ### Damage detection
+
+A received frame is `(xorL d e, xorL (checkBytes d) ke)`: covered bytes `d` damaged by the error
+pattern `e`, the two check bytes (sent high byte first) damaged by `ke`.  `weight` counts damaged
+bits; `bitsOf` lists bits in the order CRC-16/MODBUS consumes them (byte by byte, least
+significant bit first); `reg0 e` is the register the error pattern alone produces from 0. -/
+
+theorem xorL_bytes (a b : List Nat) (ha : Bytes a) (hb : Bytes b) : Bytes (xorL a b) := by
+  induction a generalizing b with
+  | nil => intro x hx; cases b <;> simp [xorL] at hx
+  | cons x xs ih =>
+    cases b with
+    | nil => intro y hy; simp [xorL] at hy
+    | cons y ys =>
+      intro z hz
+      simp only [xorL, List.mem_cons] at hz
+      rcases hz with rfl | hz
+      · exact Nat.xor_lt_two_pow (n := 8) (ha x (by simp)) (hb y (by simp))
+      · exact ih ys (fun w hw => ha w (by simp [hw])) (fun w hw => hb w (by simp [hw])) z hz
+
+/-- Exact characterisation: the damaged frame passes `validate` iff the error pattern's register
+    equals the error on the check value (linearity of the CRC register). -/
+theorem C06_undetected_iff (d e ke : List Nat) (hd : Bytes d) (he : Bytes e) (hk : Bytes ke)
+    (hlen : e.length = d.length) (hk2 : ke.length = 2) :
+    crcValidate (xorL d e) (xorL (checkBytes d) ke) = .result (decide (reg0 e = word2 ke)) := by
+  have hb : Bytes (xorL d e) := xorL_bytes d e hd he
+  have hl : (xorL (checkBytes d) ke).length = 2 := by
+    obtain ⟨a, b, rfl⟩ := pair_of_length_two ke hk2
+    simp [checkBytes, xorL]
+  rw [C06_validate_iff _ _ hb hl]
+  congr 1
+  have := undetected_iff d e ke hd he hk hlen hk2
+  by_cases h : reg0 e = word2 ke
+  · simp only [h, decide_true, decide_eq_true_eq]; exact (this.mpr h).symm
+  · simp only [h, decide_false, decide_eq_false_iff_not]; exact fun hh => h (this.mp hh.symm)
+
+/-- any single damaged bit, in the covered bytes or in the check bytes, is rejected -/
+theorem C06_detects_single_bit (d e ke : List Nat) (hd : Bytes d) (he : Bytes e) (hk : Bytes ke)
+    (hlen : e.length = d.length) (hk2 : ke.length = 2) (hw : weight e + weight ke = 1) :
+    crcValidate (xorL d e) (xorL (checkBytes d) ke) = .result false := by
+  rw [C06_undetected_iff d e ke hd he hk hlen hk2]
+  simp [detects_single_bit d e ke hd he hk hlen hk2 hw]
+
+/-- any two damaged bits anywhere in a frame whose covered part is at most 4093 bytes (every
+    frame of this protocol is far shorter; the polynomial's period is 32 767 bit positions) -/
+theorem C06_detects_double_bit (d e ke : List Nat) (hd : Bytes d) (he : Bytes e) (hk : Bytes ke)
+    (hlen : e.length = d.length) (hk2 : ke.length = 2) (hw : weight e + weight ke = 2)
+    (hshort : d.length ≤ 4093) :
+    crcValidate (xorL d e) (xorL (checkBytes d) ke) = .result false := by
+  rw [C06_undetected_iff d e ke hd he hk hlen hk2]
+  simp [detects_double_bit d e ke hd he hk hlen hk2 hw hshort]
+
+/-- any non-zero error confined to 16 consecutive bit positions of the covered bytes -/
+theorem C06_detects_burst16_in_covered_bytes (d e : List Nat) (hd : Bytes d) (he : Bytes e)
+    (hlen : e.length = d.length) (hb : Burst16 (bitsOf e)) (hw : weight e ≠ 0) :
+    crcValidate (xorL d e) (xorL (checkBytes d) [0, 0]) = .result false := by
+  have hk : Bytes [0, 0] := by intro b hb; simp at hb; omega
+  rw [C06_undetected_iff d e [0, 0] hd he hk hlen rfl]
+  have := detects_burst16_in_covered_bytes' d e [0, 0] hd he hk hlen rfl rfl hb hw
+  simp [this]
+
+/-- any non-zero error confined to the two check bytes -/
+theorem C06_detects_errors_confined_to_check_bytes (d e ke : List Nat) (hd : Bytes d) (he : Bytes e)
+    (hk : Bytes ke) (hlen : e.length = d.length) (hk2 : ke.length = 2)
+    (hwe : weight e = 0) (hwk : weight ke ≠ 0) :
+    crcValidate (xorL d e) (xorL (checkBytes d) ke) = .result false := by
+  rw [C06_undetected_iff d e ke hd he hk hlen hk2]
+  simp [detects_errors_confined_to_check_bytes d e ke hd he hk hlen hk2 hwe hwk]
+
+/-- Limit of the class, kept visible: "every burst of at most 16 bits at every position" is *false*
+    for the vendor's frame format, because the check value travels high byte first.  A 9-bit burst
+    straddling the last covered byte and the first check byte passes validation. -/
+theorem C06_burst16_across_check_boundary_witness :
+    ∃ d e ke : List Nat, Bytes d ∧ Bytes e ∧ Bytes ke ∧ e.length = d.length ∧ ke.length = 2 ∧
+      Burst16 (bitsOf (e ++ ke)) ∧ weight e ≠ 0 ∧ weight ke ≠ 0 ∧
+      crcValidate (xorL d e) (xorL (checkBytes d) ke) = .result true := by
+  obtain ⟨d, e, ke, hd, he, hk, hlen, hk2, hb, _, hwe, hwk, hv⟩ := burst16_across_check_boundary_witness
+  refine ⟨d, e, ke, hd, he, hk, hlen, hk2, hb, hwe, hwk, ?_⟩
+  rw [C06_undetected_iff d e ke hd he hk hlen hk2]
+  have := (undetected_iff d e ke hd he hk hlen hk2).mp hv
+  simp [this]
+
+-- non-vacuity of the damage hypotheses: one flipped bit in the vendor's request frame
+example : weight [0, 0, 0, 4, 0, 0] + weight [0, 0] = 1 ∧
+    crcValidate (xorL [0x80, 0xb0, 0x01, 0x2b, 0x00, 0x00] [0, 0, 0, 4, 0, 0]) (xorL [0xf5, 0x2f] [0, 0]) = .result false := by
+  decide +kernel
 
 end PyAirtouch.Props.C06
